@@ -1135,10 +1135,11 @@ func (sb *seqbag) TrimNames(namemap map[string]string, size int) error {
 			shortmap[newname] = true
 			namemap[seq.Name()] = newname
 		}
-		delete(sb.seqmap, seq.name)
 		seq.name = newname
-		sb.seqmap[seq.name] = seq
 	}
+	// The index is rebuilt once all the names are known: a new short name
+	// may be the current name of a sequence that is renamed later
+	sb.reindexNames()
 
 	return nil
 }
